@@ -20,13 +20,41 @@ def build(src, workdir):
     u = Unit('finalexp', src)
     u.add("pub mod spec {\nuse vstd::prelude::*;\nuse vstd::arithmetic::div_mod::*;\n")
     tower_env(u, opaque='all')   # hide the tower definitions: this unit reasons with the laws of f12pow only
-    u.add("""impl Fq12 {
-    // Field::pow for a one-limb exponent: the contract of ff's generic pow (C08) at this type
-    #[verifier::external_body]
-    pub fn pow(&self, exp: &[u64; 1]) -> (ret: Fq12) ensures ret.v() == f12pow(self.v(), exp[0] as int) { unimplemented!() }
-}""")
+    # the pieces of specs/mont.vrs that Field::pow needs (bit prefix of the exponent, ff's BitIterator contract proved in unit ffdep)
+    u.add("\n".join(re.findall(r'// <<bitpow[^\n]*\n(.*?)// bitpow>>', spec_text('mont.vrs'), flags=re.S)))
     u.add(spec_text('f12pow.vrs'))
     u.add("} // mod spec\npub mod code {\nuse vstd::prelude::*;\nuse super::spec::*;\nbroadcast use f12pow_axioms;\n")
+    # Field::pow (ff's generic default method, text from the registry source pinned by Cargo.lock) at Fq12 with a one-limb exponent,
+    # the instance final_exponentiation's exp_by_x calls: f.pow(&[x])
+    from units.ffdep import ff_source
+    from vx import driver
+    import os
+    ffs, ver = ff_source(os.path.join(driver.REPO, 'Cargo.lock'))
+    uu = Unit('ffpow12', ffs)
+    it_spec = dict(invariant=("        invariant {it}.n <= 64, {it}.t == *exp, v0 == {it}.val(),\n"
+                              "            res.v() == f12pow(self.v(), ({it}.val() / pow2({it}.n as nat)) as int), found_one == ({it}.val() / pow2({it}.n as nat) > 0)\n"
+                              "        ensures {it}.n == 0\n        decreases {it}.n"),
+                   ghost_before="proof { lemma_limbs_bound(exp@); lemma_small_div_m(limbs_val(exp@), pow2(64)); ax_f12pow_zero(self.v()); } let ghost v0 = {it}.val();",
+                   ghost_arm="")
+
+    def pow_edit(b):
+        b = b.replace('BitIterator::new(exp)', 'BitIterator::<1>::new(*exp)')
+        b = weave.rewrite_for_iter(b, uu.rewrites, [it_spec])
+        for k, v in uu.rewrites.items():
+            u.rewrites[k] = u.rewrites.get(k, 0) + v
+        b = re.sub(r'Some\(i\) => \{', 'Some(i) => { proof { lemma_div_step(v0, (it1.n + 1) as nat); ax_f12pow_zero(self.v()); '
+                   'assert(f12pow(self.v(), 1) == self.v()); } let ghost pre = v0 / pow2((it1.n + 1) as nat);', b, count=1)
+        return b
+    u.add("impl Fq12 {")
+    u.add(uu.real_fn('', 're:pub trait Field:', 'pow', "    ensures ret.v() == f12pow(self.v(), exp[0] as int)",
+                     ret='ret', vis='pub', body_edit=pow_edit,
+                     tail="proof { assert(pow2(0) == 1); reveal_with_fuel(limbs_val, 2); assert(exp@.subrange(1, 1).len() == 0); }",
+                     sig_edit=lambda sg: re.sub(r'<S:\s*AsRef<\[u64\]>>', '', sg).replace('exp: S', 'exp: &[u64; 1]').replace('-> Self', '-> Fq12')))
+    u.add("}")
+    u.functions.append(f"ff-zeroize-{ver}|trait Field|pow@Fq12")
+    for k, v in getattr(uu, 'canaries', {}).items():
+        u.canaries = getattr(u, 'canaries', {})
+        u.canaries[k] = v
     u.add(u.real_const('bls12_381', 'BLS_X'))
     u.add(u.real_const('bls12_381', 'BLS_X_IS_NEGATIVE'))
     bls_x = int(re.search(r'=\s*(0x[0-9a-fA-F_]+|\d+)', u.real_const('bls12_381', 'BLS_X')).group(1).replace('_', ''), 0)
